@@ -10,7 +10,10 @@ from . import C03 as _c03
 from . import C16 as _c16
 
 CHECKS = [build_check("C10", SPECS[k], clauses=("post",)) for k in
-          ("Mean", "Sum", "Constant", "IMTLG", "ConFIG.default", "ConFIG.pref", "AlignedMTL.default", "AlignedMTL.pref")]
+          ("Mean", "Sum", "Constant", "IMTLG", "ConFIG.default", "ConFIG.pref", "AlignedMTL.default", "AlignedMTL.pref", "CAGrad",
+           "GradDrop.default", "GradDrop.leak")]
 CHECKS += list(_c03.CHECKS) + [c for c in _c16.CHECKS if c.name in ("tm.forward", "krum.forward")]
+from .C18 import CHECKS as _c18  # noqa: E402
+CHECKS += [c for c in _c18 if c.name == "MGDA"]
 TRUSTED = ["pinv(P G P^T) = P pinv(G) P^T, eigh/sort/topk commute with row permutations absent ties [T]",
            "bridge lemmas gramAgg_perm_invariant, qpmin_perm, qpmin_perm_unique (Lean)"]
